@@ -35,6 +35,24 @@ Explained == \E x \in Substs : \A p \in OkOutParties : res[p].out = ClearEval(cu
 Applied(en) == (\E k \in 1..Len(en.applied) : en.applied[k]) \/ en.taps_hit > 0
 Total(sq) == LET RECURSIVE S(_) S(k) == IF k = 0 THEN 0 ELSE sq[k] + S(k - 1) IN S(Len(sq))
 
+\* A forged input label is CONSUMED by an authenticated operation only if its wire (through XOR / NOT) reaches an AND
+\* gate: the row is then opened with a wrong key (Wrk17Online.LabelTamper).  Forward taint over the instructions,
+\* starting from the registers whose label the deviation alters.
+LabelKind == cur.tag.what \in {"input label", "two input labels"}
+AlteredRegs == { cur.tag.devs[k].mut.path[1] : k \in 1..Len(cur.tag.devs) }
+\* (T maps a register to the set of altered input labels its label is offset by; XOR is symmetric difference, so the
+\*  alteration cancels in x XOR x)
+SymD(A, B) == (A \ B) \cup (B \ A)
+RECURSIVE Taint(_, _, _)
+Taint(k, T, hit) ==
+  IF k > Len(cur.circ.insts) THEN hit
+  ELSE LET i == cur.circ.insts[k] IN
+       CASE i.op = "I" -> Taint(k + 1, T, hit)
+         [] i.op = "A" -> Taint(k + 1, [T EXCEPT ![i.out] = {}], hit \/ T[i.a] # {} \/ T[i.b] # {})
+         [] i.op = "X" -> Taint(k + 1, [T EXCEPT ![i.out] = SymD(T[i.a], T[i.b])], hit)
+         [] OTHER -> Taint(k + 1, [T EXCEPT ![i.out] = T[i.a]], hit)
+LabelConsumed == Taint(1, [r \in 0..(cur.circ.mr - 1) |-> IF r \in AlteredRegs THEN {r} ELSE {}], FALSE)
+
 V(prop, what, p) == [prop |-> prop, what |-> what, p |-> p]
 FamProp == IF cur.tag.fam = "online" THEN "C03" ELSE "C04"
 
@@ -43,7 +61,7 @@ EndViol(en) ==
   \cup { V("C08", "honest party never returns", p) : p \in { q \in Honest : res[q].kind = "hang" } }
   \cup (IF en.peak > 50000000 + 100 * Total(en.brecv)
         THEN { V("C08", "memory allocated out of proportion to the bytes received", 0) } ELSE {})
-  \cup (IF cur.tag.expect = "victims" /\ Applied(en)
+  \cup (IF cur.tag.expect = "victims" /\ Applied(en) /\ (LabelKind => LabelConsumed)
         THEN { V(FamProp, cur.tag.what \o ": victim returned " \o res[p].kind \o " instead of Err", p) :
                  p \in { q \in Victims \cap Honest : res[q].kind # "err" } }
         ELSE {})
